@@ -85,7 +85,7 @@ def run(ctx):
     lc.binding_demo(ctx, ctx.seed * 7919 + 5, full=not q)
     # (label, scenarios, runs, blocks, queries per state, seed offset, extra driver flags). The disk scenario has its own
     # genesis (launch time about a day before now), hence its own trace file.
-    batches = [("all", "reorg,pingpong,crash,rawdb,deep,crash,reorg,pack,reorg", 9 if q else 45, 22 if q else 30, 24, 0, ()),
+    batches = [("all", "reorg,produce,crash,rawdb,deep,pingpong,produce,pack,crash,reorg", 10 if q else 50, 22 if q else 30, 24, 0, ()),
                ("disk", "disk", 1 if q else 6, 22, 24, 3, ())]
     if not q:
         batches += [("long", "reorg,crash,pingpong,deep", 36, 44, 30, 1, ()), ("raw5", "rawdb", 6, 40, 40, 2, ()),
@@ -130,7 +130,7 @@ def run(ctx):
             note("no options", hit)
 
     for label, scen, runs, blocks, queries, off, extra in batches:
-        per = 9
+        per = 10
         for b0 in range(0, runs, per):
             n = min(per, runs - b0)
             seed = ctx.seed * 104729 + off * 1009 + b0
@@ -151,7 +151,7 @@ def run(ctx):
                                 "a_query": lc.brief(qs[len(qs) // 2])}, limit=4)
     tot = lambda k: sum(s[k] for s in stats)
     hist = [sum(s["depthHist"][d] for s in stats) for d in range(6)]
-    ctx.cov["evaluations"] = (tot("imports") + tot("ignored") + 2 * tot("crashes") + 2 * tot("cancels") + tot("writeErrs") +
+    ctx.cov["evaluations"] = (tot("imports") + tot("packs") + tot("ignored") + 2 * tot("crashes") + 2 * tot("cancels") + tot("writeErrs") +
                               tot("queries") + tot("apiCalls"))
     ctx.cov["distinct_nontrivial"] = tot("reorgs") + tot("crashes") + tot("cancels")
     ctx.cov["rule"] = ("one evaluation = one comparison of real output with the specification: the complete event and transfer tables "
@@ -159,7 +159,9 @@ def run(ctx):
                        "imports on a real node that abandoned a non-empty old branch (every one has its own block ids, depth and "
                        "rows) plus crashes between the log transaction and the block store plus cancelled resynchronisations")
     ctx.cov["runs"] = len(stats)
-    ctx.cov["checkpointed_states"] = tot("imports") + tot("ignored") + 2 * tot("crashes")
+    ctx.cov["checkpointed_states"] = tot("imports") + tot("packs") + tot("ignored") + 2 * tot("crashes")
+    ctx.cov["own_blocks_packed_by_the_node"] = tot("packs")
+    ctx.cov["own_blocks_on_a_stale_flow_won_lost"] = [tot("staleWon"), tot("staleLost")]
     ctx.cov["reorganisations"] = tot("reorgs")
     ctx.cov["reorganisations_by_depth_1_2_3_4_ge5"] = hist[1:]
     ctx.cov["blocks_canonical_again_after_leaving"] = tot("switchBacks")
@@ -174,9 +176,10 @@ def run(ctx):
     ctx.cov["largest_table"] = max([s["maxRows"] for s in stats] or [0])
     ctx.cov["exhaustive"] = False
     if stats and (tot("reorgs") < 10 or hist[3] + hist[4] + hist[5] == 0 or tot("crashes") == 0 or tot("cancels") == 0
-                  or tot("writeErrs") < 2):
-        raise Infra("the recorded runs are too tame (reorgs=%d, by depth=%s, crashes=%d, cancelled resyncs=%d, refused writes=%d)"
-                    % (tot("reorgs"), hist[1:], tot("crashes"), tot("cancels"), tot("writeErrs")))
+                  or tot("writeErrs") < 2 or tot("staleWon") == 0 or tot("staleLost") == 0):
+        raise Infra("the recorded runs are too tame (reorgs=%d, by depth=%s, crashes=%d, cancelled resyncs=%d, refused writes=%d, "
+                    "stale-flow packs won/lost=%d/%d)" % (tot("reorgs"), hist[1:], tot("crashes"), tot("cancels"), tot("writeErrs"),
+                                                         tot("staleWon"), tot("staleLost")))
     ctx.assumptions += [
         "sqlite executes the SQL it is given correctly and a committed transaction is atomic and durable",
         "block ids, tx ids, timestamps, receipts and the outcome of the fork choice ('became best') are logged facts; "
